@@ -33,7 +33,7 @@ ASSUMPTIONS = [
     "admissible = the structure the call would produce contains every node object at most once, has no cycle, and every node to be (re-)attached has a free id",
     "operations that raise (documented or not) end the history without verdict and are counted; rejected operations are C19's subject",
 ]
-MUST_SEE = ["replace_depth_ge2", "remove_middle_of_sequence", "op_on_stale", "twins", "ops_ok", "replace_with_node", "replace_with_none", "transform_visitor", "transformer_execute", "attach_detached_subtree", "duplicate", "checks_deep", "twin_sequences"]
+MUST_SEE = ["replace_depth_ge2", "remove_middle_of_sequence", "op_on_stale", "twins", "ops_ok", "replace_with_node", "replace_with_none", "transform_visitor", "transformer_execute", "attach_detached_subtree", "duplicate", "checks_deep", "twin_sequences", "replacement_is_detached_clone_of_attached_node"]
 CONFIG = {
     "quick": {"shards": 16, "histories": 100, "ops": 30, "watchdog_s": 600},
     "thorough": {"shards": 32, "histories": 400, "ops": 50, "watchdog_s": 3400},
@@ -366,6 +366,14 @@ class Runner:
             types = tuple(U.cls[t] for t in f.types)
         cand = self.free_disjoint(tree_objs, 1, types) if rng.random() < 0.5 else []
         new = cand[0] if cand else self.fresh(leaf_only=(types == (U.cls[f"{P}Leaf"],)))
+        if rng.random() < 0.25:
+            # a detached clone (same id!) of a leaf that stays attached somewhere outside n's tree
+            leaves = [h for h in F.handles if not h.detached and not struct_children(U, h) and id(h) not in tree_objs and (types is None or isinstance(h, types))]
+            if leaves:
+                twin_of = rng.choice(leaves)
+                new = twin_of.duplicate(as_detached_clone=True)
+                F.add(new)
+                self.ctx.count("replacement_is_detached_clone_of_attached_node")
         if types is not None and not isinstance(new, types):
             return None
         if new is n:
